@@ -161,6 +161,13 @@ int __lsan_do_recoverable_leak_check(void) __attribute__((weak));
 void __lsan_ignore_object(const void *p) __attribute__((weak));
 size_t __sanitizer_get_current_allocated_bytes(void) __attribute__((weak));
 
+/* many shards run side by side: keep the memory of one process small (the environment still overrides single options) */
+const char *
+__asan_default_options(void)
+{
+    return "quarantine_size_mb=8:malloc_context_size=12:detect_stack_use_after_return=0";
+}
+
 /* the leak report lists the leaked objects, so that they can be set aside and are not reported again after later cases */
 const char *
 __lsan_default_options(void)
@@ -1097,7 +1104,9 @@ main(void)
     struct vcase c;
     struct shard S;
     struct sigaction sa;
-    int limit = getenv("RB_CPU_LIMIT") ? atoi(getenv("RB_CPU_LIMIT")) : 10;
+    /* CPU seconds per case: legitimate work takes < 1 s (release) / < 3 s (ASan); the sanitizer build gets more head room
+     * because page-fault and reclaim time of a loaded machine is charged to the process as well */
+    int limit = getenv("RB_CPU_LIMIT") ? atoi(getenv("RB_CPU_LIMIT")) : (__lsan_do_recoverable_leak_check ? 30 : 10);
     unsigned ncase = 0;
     int private_ctx = 0;
 
